@@ -566,6 +566,7 @@ func main() {
 				t = genTreeRT(r, n)
 			} else {
 				t = genTree(r, n)
+				decorateIniNames(r, t)
 			}
 			Flatten(t)
 			if !treeOK(t) {
